@@ -12,37 +12,56 @@ DRIVER = "C48"
 GENERATED = ["config"]
 SOURCES = ["src/allmydata/util/time_format.py", "src/allmydata/util/abbreviate.py", "src/allmydata/client.py", "src/allmydata/storage/expirer.py"]
 DESIGN_REF = "DESIGN.md §2 C48"
-TECHNIQUE = ("Lean 4 theorems over character-level recognisers equivalent to the three regexes (abstract alphabet: digit value, "
-             "whitespace, newline, ASCII code point, U+017F, U+0131, other) and an exact integer model of the float arithmetic of "
-             "abbreviate_space; unit tables and pattern strings extracted from the source and pinned by named theorems; "
-             "differential correspondence of every call against the real functions, including a scan of every Unicode code point "
-             "that validates the alphabet abstraction")
-LEVEL_TEXT = ("Completeness (every documented spelling, any number / whitespace / case, gets the documented value), soundness "
-              "(anything accepted has the documented shape and value), midnight-UTC dates and print-then-parse for sizes below "
-              "1024 are proved in Lean for all inputs; print-then-parse for sizes >= 1024 is false of the code (decimal point) and "
-              "is kept as a proved counterexample plus the guarded partial theorem.  Each parser accepts exactly the documented "
-              "grammar (iff theorems); the client.py glue from the [storage] keys to the parsers is modelled and proved to route each "
-              "key to its parser, to stop node start on a malformed value and to start on a documented configuration.")
-LEVEL_NOTE = ("Lean kernel + standard axioms; the model is hand-written and tied by correspondence; characters are abstracted to "
-              "classes by harness sym_of (Python str.isdecimal/isspace = re's \\d/\\s), validated on all code points in the thorough tier.")
-RULE = ("one case = one generated tahoe.cfg [storage] section through read_config + get_anonymous_storage_server, or one call of parse_duration / parse_date / parse_abbreviated_size on a generated string, or one "
-        "abbreviate_space→parse_abbreviated_size round trip; distinct = distinct (function, argument); non-trivial = the argument "
-        "contains at least one digit (so the number part of the grammar is entered); the date cases are additionally run under "
-        "each process time zone of ZONES (TZ + time.tzset), one case per (date, zone)")
-TRUSTED = ["lean/Tahoe/Config/Parse.lean is a hand transcription of the four functions (regexes as greedy recognisers, justified in its header)",
-           "harness/props/c48.py sym_of: the abstraction of a Python character to the model's alphabet",
+TECHNIQUE = ("Lean 4 theorems (39, Tahoe/Props/C48.lean) over (i) character-level recognisers transcribing the three regexes of "
+             "parse_duration / parse_abbreviated_size / parse_date (abstract alphabet: digit value, whitespace, newline, ASCII code "
+             "point, U+017F, U+0131, other), (ii) an exact integer model of the float arithmetic of abbreviate_space, (iii) a model "
+             "of the client.py glue (_Config.get_config, configparser.getboolean words, the expire.mode literals, "
+             "_Client.get_anonymous_storage_server, LeaseCheckingCrawler.__init__ mode check); unit tables and pattern strings are "
+             "extracted from the source and pinned by named theorems; differential correspondence of every parser call, of "
+             "print-then-parse and of generated tahoe.cfg [storage] sections (real read_config + get_anonymous_storage_server) "
+             "against the Lean driver, dates under 10 process time zones, a scan of every Unicode code point validating the alphabet "
+             "abstraction (thorough tier), and a seed-independent fixed corpus run first (VERIF_CORPUS_ONLY=1 runs only it)")
+LEVEL_TEXT = ("Proved in Lean for all inputs: each parser accepts exactly the documented grammar with the documented value "
+              "(duration_accepts_iff, size_accepts_iff, date_accepts_iff; documented_spellings_*, accepted_implies_grammar_*, "
+              "malformed_rejected, size_rejection_is_valueError); unit values and regex strings pinned (month_is_31_days, "
+              "*_regex_pinned, …); dates are midnight UTC of an existing day (date_midnight_utc, ordinal_epoch, ordinal_next_day); "
+              "each [storage] setting reaches its parser and configures the documented value (glue_reserved_space, "
+              "glue_override_lease_duration, glue_cutoff_date, glue_booleans), a malformed, blank or unreadable setting stops node "
+              "start (glue_malformed_value_stops_start, glue_bad_boolean_or_mode_stops_start, glue_blank_value_stops_start, "
+              "get_config_present_reaches_parser), a documented configuration starts it (glue_documented_config_starts); boolean "
+              "words and mode literals (getboolean_spellings, classifyBool_iff, mode_literals).  Print-then-parse is proved only for "
+              "sizes < 1024 (print_then_parse_partial); for sizes >= 1024 it is false of the code (print_then_parse_counterexample, "
+              "printed_large_rejected; open known finding print-parse-decimal-rejected).  Correspondence only: time-zone independence "
+              "of parse_date, regex ≙ recogniser and the character abstraction, configparser's file syntax.")
+LEVEL_NOTE = ("Lean kernel + standard axioms; the models are hand-written and tied by correspondence (0 disagreements); characters are "
+              "abstracted to classes by harness sym_of (str.isdecimal/isspace = re's \\d/\\s) and, for literal-compared values, lit_sym; "
+              "sym_of is validated on all 0x110000 code points in the thorough tier.  The two C48 defects found (documented size "
+              "spellings with a space rejected; lenient dates) are repaired in /repo (8480b59, 396b8df) and modelled as repaired.")
+RULE = ("one case = one generated tahoe.cfg [storage] section through read_config + _Client.get_anonymous_storage_server, or one call "
+        "of parse_duration / parse_date / parse_abbreviated_size on a generated string, or one abbreviate_space→"
+        "parse_abbreviated_size round trip; distinct = distinct (function, argument) resp. distinct cfg text; non-trivial = the "
+        "argument contains at least one digit (so the number part of the grammar is entered); the date cases are additionally run "
+        "under each process time zone of ZONES (TZ + time.tzset), one case per (date, zone); the fixed corpus (doc examples, every "
+        "seeded change C48-a..e, both repaired defects, boundary and blank values) runs first and does not depend on VERIF_SEED")
+TRUSTED = ["lean/Tahoe/Config/Parse.lean is a hand transcription of the four util functions (regexes as greedy recognisers, justified in its header)",
+           "lean/Tahoe/Config/Glue.lean is a hand transcription of _Config.get_config (strip; present-blank is not absent), "
+           "configparser.getboolean, the expire.mode comparison, _Client.get_anonymous_storage_server and LeaseCheckingCrawler.__init__",
+           "harness/props/c48.py sym_of / lit_sym: the abstraction of a Python character to the model's alphabet",
            "harness/extract_parts/config.py: unit tables and pattern strings recovered from the functions' ASTs",
-           "lean/Tahoe/Config/Glue.lean is a hand transcription of _Client.get_anonymous_storage_server + LeaseCheckingCrawler.__init__; "
-           "booleans and the mode are classified by the model itself from the value text (harness lit_sym keeps ASCII + whitespace); the harness drives the real "
-           "read_config + get_anonymous_storage_server on a _Client built without Node.__init__ (no tubs, no introducer)"]
-ASSUMPTIONS = ["glue: each value is written on one physical line of tahoe.cfg without '%' (no continuation lines, no interpolation)",
+           "the harness drives the real read_config + get_anonymous_storage_server on a _Client built without Node.__init__ "
+           "(no tubs, no introducer; get_config bound as Node.__init__ does)"]
+ASSUMPTIONS = ["glue: each value is written on one physical line of tahoe.cfg without '%' (no continuation lines, no interpolation); "
+               "option names are written in lower case; storage_dir, plugins and pre-1.3 config files are outside the model",
                "arguments are str (tahoe.cfg values); parse_abbreviated_size(None) behaves like ''",
-               "abbreviate_space is given an int 0 <= s < 2**1000 (no float overflow); None -> 'unknown' not modelled",
+               "abbreviate_space is given an int 0 <= s < 2**1000 (no float overflow); None -> 'unknown' and abbreviate_space_both not modelled",
+               "correspondence only (no theorem): parse_date does not depend on the process time zone; Python's backtracking regex "
+               "matcher agrees with the greedy recognisers; the character classes of sym_of",
                "'accepted and read as something else' is judged against the most permissive reading of the documentation: any Unicode "
                "decimal digit counts as its digit, any Unicode whitespace as a space, letters compare by str.upper(); surrounding "
                "whitespace is neither required to be accepted nor to be rejected",
                "printed sizes >= 1024 are rounded to 2 decimals, so 'the same value' can only mean: the value the printed string "
-               "denotes, which is within half a unit of the last printed place (0.005 * base**i, +1 for truncation) of the size"]
+               "denotes, which is within half a unit of the last printed place (0.005 * base**i, +1 for truncation) of the size "
+               "(monitor tolerance; not reached, since the parser rejects the decimal point — open known finding)"]
 
 # ------------------------------------------------------------------ documented tables (monitor's own; written from the docs)
 DAY = 86400
